@@ -102,6 +102,156 @@ impl<T: Ord> Ord for Identifier<T> {
 //@end
 }
 
+impl<T> From<(BigRational, T)> for Identifier<T> {
+    #[verifier::external_body]
+    fn from(p: (BigRational, T)) -> (r: Self) ensures r@ == seq![p] { Self(vec![(p.0, p.1)]) }
+}
+
+impl<T: Clone + Ord + Eq> Identifier<T> {
+//@extract fn src/identifier.rs "Identifier" value
+    pub fn value(&self) -> /*@ (r: @*/ &T /*@ ) @*/
+    //@ requires self@.len() > 0,
+    //@ ensures *r == self@.last().1,
+    {
+        self.0.last().map( /*@<*/ | /*@>*/ /*@<pat*/ (_, elem) /*@>*/ /*@<*/ | /*@>*/ /*@ |p: &(BigRational, T)| -> (o: &T) ensures *o == p.1 { let $pat = p; @*/ elem /*@ } @*/ ).unwrap() // TODO: remove this unwrap
+    }
+//@end
+
+    // OUT OF REACH: `between` walks two `Box<dyn Iterator>` paths (trait objects are outside Verus).  Contract assumed,
+    // bounded stand-in `identifier_between` in the replay crate (C14 density: reported as bounded, never as proved).
+    #[verifier::external_body]
+    pub fn between(low: Option<&Self>, high: Option<&Self>, marker: T) -> (r: Self)
+        ensures
+            ord_ok::<T>() ==> {
+                &&& (low is Some && high is Some && id_cmp(low->0@, high->0@) == Ordering::Less ==> id_cmp(low->0@, r@) == Ordering::Less && id_cmp(r@, high->0@) == Ordering::Less)
+                &&& (low is Some && high is Some && id_cmp(low->0@, high->0@) == Ordering::Greater ==> id_cmp(high->0@, r@) == Ordering::Less && id_cmp(r@, low->0@) == Ordering::Less)
+                &&& (low is Some && low->0@.len() > 0 && high is None ==> id_cmp(low->0@, r@) == Ordering::Less)
+                &&& (low is None && high is Some && high->0@.len() > 0 ==> id_cmp(r@, high->0@) == Ordering::Less)
+                &&& r@.len() > 0
+            },
+    { unimplemented!() }
+}
+
+// ------------------------------------------------------------------------------------------------
+// Layer L (C14): id_cmp is a total order consistent with equality -- for paths of ANY depth.
+pub open spec fn node_ok<T: Ord>() -> bool { ord_ok::<(BigRational, T)>() && ord_ok::<T>() }
+
+pub proof fn c14_reflexive<T: Ord>(a: Seq<(BigRational, T)>)
+    requires node_ok::<T>(), forall|x: (BigRational, T)| #[trigger] x.cmp_spec(&x) == Ordering::Equal,
+    ensures id_cmp(a, a) == Ordering::Equal,
+    decreases a.len(),
+{
+    if a.len() > 0 { c14_reflexive(a.drop_first()); }
+}
+
+/// antisymmetry: a < b iff b > a, and Equal is symmetric
+pub proof fn c14_antisymmetric<T: Ord>(a: Seq<(BigRational, T)>, b: Seq<(BigRational, T)>)
+    requires node_ok::<T>(),
+    ensures
+        id_cmp(a, b) == Ordering::Less <==> id_cmp(b, a) == Ordering::Greater,
+        id_cmp(a, b) == Ordering::Equal <==> id_cmp(b, a) == Ordering::Equal,
+    decreases a.len(),
+{
+    lemma_ord_ok::<(BigRational, T)>();
+    if a.len() > 0 && b.len() > 0 {
+        assert(a[0].cmp_spec(&b[0]) == Ordering::Less <==> b[0].cmp_spec(&a[0]) == Ordering::Greater);
+        assert(a[0].cmp_spec(&b[0]) == Ordering::Equal <==> b[0].cmp_spec(&a[0]) == Ordering::Equal);
+        assert(gt(a[0], b[0]) <==> lt(b[0], a[0])) by { assert(b[0].cmp_spec(&a[0]) == Ordering::Less <==> a[0].cmp_spec(&b[0]) == Ordering::Greater); }
+        c14_antisymmetric(a.drop_first(), b.drop_first());
+    }
+}
+
+/// identifiers that compare Equal have the same length and node-wise equivalent paths (equal, when node
+/// equivalence is equality): the order is consistent with ==
+pub proof fn c14_equal_means_same<T: Ord>(a: Seq<(BigRational, T)>, b: Seq<(BigRational, T)>)
+    requires node_ok::<T>(), id_cmp(a, b) == Ordering::Equal,
+    ensures a.len() == b.len(), forall|i: int| 0 <= i < a.len() ==> (#[trigger] a[i]).cmp_spec(&b[i]) == Ordering::Equal,
+    decreases a.len(),
+{
+    if a.len() > 0 && b.len() > 0 {
+        c14_equal_means_same(a.drop_first(), b.drop_first());
+        assert forall|i: int| 0 <= i < a.len() implies (#[trigger] a[i]).cmp_spec(&b[i]) == Ordering::Equal by {
+            if i > 0 { assert(a[i] == a.drop_first()[i - 1] && b[i] == b.drop_first()[i - 1]); }
+        }
+    }
+}
+
+/// transitivity of <
+pub proof fn c14_transitive<T: Ord>(a: Seq<(BigRational, T)>, b: Seq<(BigRational, T)>, c: Seq<(BigRational, T)>)
+    requires node_ok::<T>(), id_cmp(a, b) == Ordering::Less, id_cmp(b, c) == Ordering::Less,
+    ensures id_cmp(a, c) == Ordering::Less,
+    decreases a.len(),
+{
+    lemma_ord_ok::<(BigRational, T)>();
+    // a < b: a is non-empty; b < c: b is non-empty
+    if b.len() == 0 { }
+    else if c.len() == 0 { }
+    else {
+        let ab = a[0].cmp_spec(&b[0]);
+        let bc = b[0].cmp_spec(&c[0]);
+        if ab == Ordering::Equal && bc == Ordering::Equal {
+            assert(eqv(a[0], b[0]) && eqv(b[0], c[0]));
+            assert(eqv(a[0], c[0]));
+            c14_transitive(a.drop_first(), b.drop_first(), c.drop_first());
+        } else if ab == Ordering::Equal {
+            assert(lt(b[0], c[0]));
+            lemma_eqv_lt::<(BigRational, T)>(a[0], b[0], c[0]);
+        } else if bc == Ordering::Equal {
+            assert(lt(a[0], b[0]));
+            lemma_lt_eqv::<(BigRational, T)>(a[0], b[0], c[0]);
+        } else {
+            assert(lt(a[0], b[0]) && lt(b[0], c[0]));
+            assert(lt(a[0], c[0]));
+        }
+    }
+}
+
+pub proof fn lemma_eqv_lt<V: Ord>(x: V, y: V, z: V)
+    requires ord_ok::<V>(), eqv(x, y), lt(y, z),
+    ensures lt(x, z),
+{
+    lemma_ord_ok::<V>();
+    // x ? z: if x > z then z < x ~ y so z < y contradiction with y < z; if x ~ z then y ~ z contradiction
+    if gt(x, z) {
+        assert(lt(z, x));
+        assert(eqv(y, x));
+        lemma_lt_eqv(z, x, y);
+        assert(gt(y, z) <==> lt(z, y));
+    } else if eqv(x, z) {
+        assert(eqv(y, x));
+        assert(eqv(y, z));
+    }
+}
+pub proof fn lemma_lt_eqv<V: Ord>(x: V, y: V, z: V)
+    requires ord_ok::<V>(), lt(x, y), eqv(y, z),
+    ensures lt(x, z),
+{
+    reveal(vstd::laws_cmp::obeys_cmp);
+    reveal(vstd::laws_cmp::obeys_cmp_partial_ord);
+    reveal(vstd::laws_cmp::obeys_cmp_ord);
+    reveal(vstd::laws_cmp::obeys_partial_cmp_spec_properties);
+    reveal(vstd::laws_eq::obeys_eq);
+    reveal(vstd::laws_eq::obeys_eq_spec_properties);
+    lemma_ord_ok::<V>();
+    assert(x.partial_cmp_spec(&y) == Some(Ordering::Less));
+    assert(y.eq_spec(&z));
+    if gt(x, z) {
+        // z < x < y  ==> z < y, but y ~ z
+        assert(lt(z, x));
+        assert(lt(z, y));
+        assert(eqv(z, y));
+    } else if eqv(x, z) {
+        assert(eqv(z, y));
+        assert(eqv(x, y));
+    }
+}
+
+/// totality: exactly one of <, ==, > (the result type is a three-valued Ordering; with antisymmetry this is totality)
+pub proof fn c14_total<T: Ord>(a: Seq<(BigRational, T)>, b: Seq<(BigRational, T)>)
+    requires node_ok::<T>(),
+    ensures id_cmp(a, b) == Ordering::Less || id_cmp(a, b) == Ordering::Equal || id_cmp(a, b) == Ordering::Greater,
+{}
+
 } // verus!
 }
 pub use crate::identifier::Identifier;
